@@ -130,6 +130,8 @@ def expr(e, out):
         out.w("min_utxo", "(", e["out"], ")")
     elif k == "utxo_ref":
         out.w("0x" + _bytes_hex(e["txid"]) + "#" + str(e["index"]))
+    elif k == "utxo_ref_wide":
+        out.w("0x" + _bytes_hex(e["txid"]) + "#" + str(2**32 + e["index"]))
     elif k == "raw":
         out.w(e["text"])
     else:
